@@ -41,6 +41,11 @@ class MetaOnly(Suite):
                 if e["t"] == "file":
                     bigp = e["p"]
                     e["x"] = sorted([[hx(b"trusted.big"), hx(b"v" * rng.choice([33000, 40000]))], [hx(b"trusted.t2"), hx(b"y" * 20000)]])
+            if bigp is None and rng.random() < 0.08 and not any(bytes.fromhex(e["p"]) < b"!big" for e in tree):
+                # the FIRST record of the listing is a few KiB (between small and a whole buffer chunk)
+                bigp = hx(b"!big")
+                tree = [{"p": bigp, "t": "file", "size": 3, "uid": 0, "gid": 0, "mt": gen.MTIMES[1], "mode": 0o644,
+                         "x": [[hx(b"trusted.big"), hx(b"v" * rng.choice([4200, 6000, 12000, 30000, 32700]))]]}] + tree
             if rng.random() < 0.25:
                 # the source itself contains the listing name
                 kind = rng.choice(["file", "dir", "symlink"])
